@@ -253,6 +253,8 @@ var collParts = []string{
 	"a", "A", "á", "ä", "å", "b", "B", "c", "ç", "d", "e", "é", "E", "o", "ö", "ø", "z", "Z", "ß", "ss",
 	"1", "2", "9", "10", "11", "100", "007", "α", "β", "Ω", "ж", "я", "日", "本", "語", "résumé", "resume", "Resume",
 	"cote", "côte", "coté", "côté", "strasse", "straße", "über", "uber", "zebra", "Zebra", "aaaaaaaaaaaaaaaa", "ååååååå",
+	// runes a hand-written decoder gets wrong: the (validly encoded) replacement character, a 4-byte rune, the largest rune
+	"\uFFFD", "x\uFFFD", "\U0001F600", "\U0010FFFF", "\u07FF\u0800",
 }
 
 func (g *gen) collString() string {
@@ -633,6 +635,9 @@ func (g *gen) history(tid string, ks kindSpec, prof string, nops int) {
 			if (kind == "alpha" || kind == "raw") && r.chance(10) {
 				b = "x"
 			}
+			if kind == "coll" && r.chance(10) { // the open end of a collation Range: the empty string
+				b, _ = collKeyText(collatorByName(collNameOf(ks.variant)), &collate.Buffer{}, "")
+			}
 			if r.chance(10) {
 				b = a
 			}
@@ -655,6 +660,13 @@ func (g *gen) history(tid string, ks kindSpec, prof string, nops int) {
 				pk = xhex(b)
 				if r.chance(5) {
 					pk = "x"
+				}
+				if r.chance(8) { // a stored key continued by 0x00...: longer than the key, equal to its stored (terminated) form
+					kb := append(xbytes(pick(r, pool)), 0)
+					if r.chance(50) {
+						kb = append(kb, pick(r, boundaryBytes), 'z')
+					}
+					pk = xhex(kb)
 				}
 			} else if r.chance(60) {
 				// a prefix (in original bytes, cut at a rune boundary) of a stored collation key
@@ -1172,6 +1184,8 @@ func genMain(args []string) {
 			}
 		case "multi": // interleaved histories on several trees of mixed kinds (C12)
 			g.multiFile(hpf, nops)
+		case "huge": // keys of 65 534 .. 70 001 bytes (beyond 16-bit lengths), sharing all but their last bytes
+			g.hugeFile(hpf)
 		case "nul": // malformed stream: byte-string keys containing 0x00
 			g.nulFile(hpf, nops, len(parts) > 1 && parts[1] == "clean")
 		case "closure": // closure[:<profile>]: exhaustive exploration of one small key universe per file; nops = depth bound, hpf = state bound
@@ -1317,4 +1331,70 @@ func (g *gen) nulFile(hists, nops int, clean bool) {
 		g.emit("ALL %s -", tid)
 		g.emit("SIZE %s", tid)
 	}
+}
+
+// hugeFile: a few histories whose keys are longer than 65 535 bytes and share a compressed path of that order:
+// every length the library keeps (leaf key length, compressed-path length, depth) passes 2^16
+func (g *gen) hugeFile(hists int) {
+	r := g.r
+	for h := 0; h < hists; h++ {
+		tid := fmt.Sprintf("h%d", h)
+		g.st.Histories++
+		ks := pick(r, []kindSpec{{"alpha", "bytes"}, {"alpha", "string"}, {"raw", ""}, {"comp:u4,str", ""}})
+		g.st.Kinds[ks.kind+" "+ks.variant+" huge"]++
+		g.emit("NEW %s %s %s", tid, ks.kind, orDash(ks.variant))
+		stem := make([]byte, 65530)
+		for i := range stem {
+			stem[i] = byte('a' + (i*7+h)%23)
+		}
+		mk := func(tail []byte) string {
+			b := append(append([]byte{}, stem...), tail...)
+			switch ks.kind {
+			case "raw":
+				// prefix-free by a two-byte length in front
+				return xhex(append([]byte{byte(len(b) >> 16), byte(len(b) >> 8), byte(len(b))}, b...))
+			case "comp:u4,str":
+				return "2a," + xhex(b)
+			}
+			return xhex(b)
+		}
+		tails := [][]byte{[]byte("wxyz"), []byte("wxyzA"), []byte("wxyzAB"), []byte("wxyzB7"), []byte("wx"), bytesRepeat('q', 4471), []byte("k")}
+		var keys []string
+		for _, t := range tails {
+			keys = append(keys, mk(t))
+		}
+		for i, k := range keys {
+			g.emit("I %s %s %d", tid, k, 100+i)
+			g.emit("S %s %s", tid, k)
+			g.emit("SIZE %s", tid)
+		}
+		for _, k := range keys {
+			g.emit("S %s %s", tid, k)
+		}
+		g.emit("S %s %s", tid, mk([]byte("wxy")))
+		g.emit("D %s %s", tid, mk([]byte("wxyzAC")))
+		g.emit("MIN %s", tid)
+		g.emit("MAX %s", tid)
+		g.emit("ALL %s -", tid)
+		g.emit("BWD %s 2", tid)
+		g.emit("RNG %s %s %s -", tid, keys[0], keys[3])
+		g.emit("DUMP %s", tid)
+		for i, k := range keys {
+			if i%2 == 0 {
+				g.emit("D %s %s", tid, k)
+				g.emit("S %s %s", tid, k)
+			}
+		}
+		g.emit("ALL %s -", tid)
+		g.emit("SIZE %s", tid)
+		g.emit("DUMP %s", tid)
+	}
+}
+
+func bytesRepeat(b byte, n int) []byte {
+	out := make([]byte, n)
+	for i := range out {
+		out[i] = b
+	}
+	return out
 }
